@@ -105,6 +105,16 @@ def stepArgs (w : World) (op : String) (a : Args) : World × String :=
       match r with
       | none => (w, "bad-op:val")
       | some (vals, single) =>
+        -- `vdtype=`: the values array deliberately has another dtype than the map → "Data-type mismatch"
+        -- (checked after the empty-pixel early return, line 582-587)
+        let mistyped := match a.get? "vdtype", m.kind with
+          | some t, .plain dt => t != dtCode dt
+          | some _, _ => true
+          | none, _ => false
+        if mistyped && !pix.isEmpty && !(a.getD "op" "replace" != "replace" && m.kind.isBool == false &&
+            (a.getD "op" "" == "or" || a.getD "op" "" == "and") && !(m.kind.isIntegerMap && m.sent.isZero)) then
+          (w.put n { m with cache := none }, errLine .value)
+        else
         match apiUpdate m (a.getD "op" "replace") pix vals single with
         | .ok m' => (w.put n m', "ok")
         | .error e => (w.put n { m with cache := none }, errLine e)
